@@ -104,15 +104,15 @@ func (e *env) coqD() string {
 	return fmt.Sprintf("mkD %s %d", List(it), e.Unlock)
 }
 func (e *env) flat(m map[string]interface{}) {
-	m["burn"] = e.Burn
-	m["max_size"] = e.MaxSize
-	m["precision"] = e.Prec
+	m["burn"] = fmt.Sprint(e.Burn)
+	m["max_size"] = fmt.Sprint(e.MaxSize)
+	m["precision"] = fmt.Sprint(e.Prec)
 	it := make([]string, len(e.Dist))
 	for i, a := range e.Dist {
 		it[i] = fmt.Sprint(a)
 	}
 	m["dist"] = strings.Join(it, ",")
-	m["unlocked"] = e.Unlock
+	m["unlocked"] = fmt.Sprint(e.Unlock)
 	m["big_sigs"] = e.BigSigs
 }
 func parseEnv(m map[string]interface{}) *env {
@@ -240,7 +240,7 @@ func run(args []string) error {
 			Tuple(st.CoqResZE(pFee, feeV, eFee), lockS, st.OptErr(hrs.Name(eVal)))))
 		m := c.Flat()
 		e.flat(m)
-		m["size"] = size
+		m["size"] = fmt.Sprint(size)
 		m["size_err"] = hrs.Name(eSize)
 		m["pre"] = hrs.Name(pre)
 		m["obs_soft"] = hrs.ShowVerdict(pSoft, eSoft)
@@ -311,7 +311,7 @@ func run(args []string) error {
 		vfee = append(vfee, Tuple(c.CoqOuts(), Z(fe), Z(uint64(burn)), st.CoqResErr(p, err)))
 		m := c.Flat()
 		m["fee"] = fmt.Sprint(fe)
-		m["burn"] = burn
+		m["burn"] = fmt.Sprint(burn)
 		m["obs"] = hrs.ShowErr(p, err)
 		caseJSON["vfee"] = append(caseJSON["vfee"], m)
 		o.Count(fmt.Sprint("vfee", m["outs"], fe, burn), burn >= 2)
